@@ -1403,3 +1403,8 @@ M("c01_prepare_down_trims_after_fit_test_revert", ["C01"], ["C01.R7"], [
     let start = up_align_unchecked(start, layout.align());
 """)])
 
+M("c17_dyn_reserve_without_restore_revert", ["C17"], ["C17.R8"], [
+    ("src/traits/bump_allocator_typed.rs", """                unsafe { bump.reset_to(checkpoint) };
+                Ok(())""", """                let _ = checkpoint;
+                Ok(())""")])
+
